@@ -290,7 +290,7 @@ class Families:
   def keypair_odd(self):
     # a table prefix in front of a modulus of odd size: the generator cannot have produced it
     msb = self.rng.choice(sorted(self.w.table))
-    sh = self.rng.choice([1, 65, 191, 449, 961])
+    sh = self.rng.choice([1, 65, 191, 449, 961, 6, 70, 198, 456, 968, 446, 444, 442, 440])   # odd sizes and even sizes with (bits//2) % 8 >= 3
     return [Key('keypair-prefix-odd', (msb << sh) | self.rng.getrandbits(sh) | 1)]
 
   def roca(self):
@@ -503,7 +503,7 @@ class World:
     bl = n.bit_length()
     if bl >= 64:
       meta = self.table.get(n >> (bl - 64))
-      if meta is not None and bl % 2 == 0:      # odd sizes: generator not consulted (D21)
+      if meta is not None and bl % 2 == 0 and (bl // 2) % 8 <= 2:      # other sizes: generator not consulted (D21)
         try:
           seed = c06.seed_from_meta_ref(meta)
         except Exception:  # noqa  (malformed metadata: the model raises before asking)
